@@ -26,6 +26,7 @@ ASSUMPTIONS = [
     "frame sizes are regular (multiples of the subsampling factors; doubled vertically for interlaced sources or field coding)",
     "for levels whose data-unit ordering pattern forbids a picture-less sequence (64, 65, 66) acceptance is judged at the end of the header (hook), because a conformant 1080p/UHD picture is far outside the tier budgets; for all other levels the whole [header, end_of_sequence] stream must be accepted",
     "clean areas lie inside the frame",
+    "30 % of the level-0 cases use an 8x8 frame and put real (mid-grey) pictures after every generated header so that the validator's end-of-sequence rules are exercised too",
 ]
 CASE_TIMEOUT_S = 120
 
@@ -143,8 +144,15 @@ def cases(spec, ctx):
             elif f == "spec":
                 p = PRESET_COLOR_SPECS[rng.choice(sorted(PRESET_COLOR_SPECS))]
                 over["prim"], over["mat"], over["tf"] = int(p.color_primaries_index), int(p.color_matrix_index), int(p.transfer_function_index)
+        with_picture = False
+        if rng.random() < 0.3:
+            # small frame so that a real picture can follow every header (the validator's end-of-sequence
+            # checks, e.g. the minimal-version rule, only bite when the sequence holds pictures)
+            over["size"] = [8, 8]
+            over.pop("clean", None)
+            with_picture = True
         yield {"base": base, "over": over, "pcm": rng.choice([0, 1]), "level": level,
-               "profile": rng.choice([0, 3]), "major_version_hint": None}
+               "profile": rng.choice([0, 3]), "with_picture": with_picture}
 
 
 def _pick(vs, candidates, rng):
@@ -306,11 +314,22 @@ def run_case(case, ctx):
         return
     ctx.count("cases_with_headers:" + kind)
     stop = case["level"] in NEEDS_PICTURES
+    pic_units = None
+    if case.get("with_picture"):
+        from vc2_conformance.encoder import make_sequence
+        from vc2_conformance.picture_generators import mid_gray
+
+        full = make_sequence(cf, list(mid_gray(vp, cf["picture_coding_mode"])))
+        pic_units = [du for du in full["data_units"] if "picture_parse" in du]
+        ctx.count("cases_with_pictures")
     for hi, h in enumerate(headers):
         seq = B.Sequence(data_units=[
             B.DataUnit(parse_info=B.ParseInfo(parse_code=ParseCodes.sequence_header), sequence_header=copy.deepcopy(h)),
+        ] + (copy.deepcopy(pic_units) if pic_units else []) + [
             B.DataUnit(parse_info=B.ParseInfo(parse_code=ParseCodes.end_of_sequence)),
         ])
+        if pic_units:
+            ctx.count("headers_followed_by_pictures")
         try:
             data = vc2util.serialise([seq])
         except Exception as e:
@@ -409,6 +428,8 @@ def floor(agg, tier):
         miss.append("too few alternative encodings")
     if c.get("hook_calls", 0) < 4000 * s:
         miss.append("sequence_header hook reached too rarely")
+    if c.get("headers_followed_by_pictures", 0) < 1000 * s:
+        miss.append("too few headers validated with pictures following")
     if len(agg["sets"].get("levels", ())) < 8:
         miss.append("fewer than 8 distinct levels exercised")
     if len(agg["sets"].get("bases_used", ())) < 20:
